@@ -15,7 +15,8 @@ claim('C02', 'proof',
       'pg.List refines Python list per operation on the payload view: `_parse_slice` / `__getitem__` (int, and slices with start/stop symbolic and '
       'step in {None,+-1,+-2,+-3}) return exactly what Python\'s slice semantics prescribe, `append/insert/__setitem__/__delitem__/pop` leave the '
       'payload equal to the Python operation\'s result and raise IndexError exactly when Python does; obligations are discharged for lists of any '
-      'length. Histories follow by induction on the per-operation refinement. The bounded tier runs the full list/dict API differentially.',
+      'length. Deleting an extended slice (step != 1) issues its single deletions from the highest index down, once per member of range(start, stop, step), for positive and '
+      'negative steps (9 obligations, shape-bounded: concrete triples). Histories follow by induction on the per-operation refinement. The bounded tier runs the full list/dict API differentially.',
       'Trusted: pyvc engine, axioms of the C-level list methods and slice.indices (cross-checked against CPython on every path), leaf values '
       'without value spec are their own formal value. Dict operations, sort/reverse/extend/remove, nested auto-conversion and JSON read-back are '
       'covered only by the bounded differential driver.',
@@ -55,9 +56,11 @@ claim('C17', 'proof',
       'body is executed to its yield, the block is abstracted by the induction hypothesis (well-nested body), and on both the normal and the '
       'exceptional exit the whole thread-local store equals the store before *entering* (the store is havocked between creating the manager object and entering it, '
       'so a manager that captures state at creation time fails); inside the block the getter returns the argument '
-      '(outermost wins for permission); all writes go to the current thread\'s store (threading.local axiom).',
-      'Trusted: engine, the threading.local confinement axiom (pyvc/tls.py), private sentinels are never stored by callers. Other managers '
-      '(contextual overrides, view options, detour, dynamic evaluation, timing) are covered by the bounded tier (nested programs, two threads).',
+      '(outermost wins for permission); all writes go to the current thread\'s store (threading.local axiom). `pg.view_options` (a scope over a stack of option dicts): it pushes exactly one '
+      'object, the deep merge of the enclosing scope\'s options and its arguments, yields that object, hands the enclosing scope\'s dict to nothing but the merge (so an inner scope cannot write into '
+      'the outer one\'s options), and pops exactly once on the normal and on the exceptional exit.',
+      'Trusted: engine, the threading.local confinement axiom (pyvc/tls.py), private sentinels are never stored by callers; utils.merge returns a fresh deep merge (A-MERGE-FRESH, exercised by the bounded driver). Other managers '
+      '(contextual overrides, detour, dynamic evaluation, timing) are covered by the bounded tier (nested programs, two threads).',
       'contract-based deductive verification (pyvc, context-manager contracts over a thread-local store model)', 'DESIGN.md 5/C17')
 claim('C19', 'proof',
       'Finite-domain proof of the gate: `_CodeValidator.generic_visit` over every class of the live `ast` module x all 2^8 permission sets (symbolic '
